@@ -404,3 +404,61 @@ Proof.
   destruct (execute o e sender fs m (market (k w))) as [[s' out]|] eqn:E; [|reflexivity].
   destruct (exit_rank _ _ _ _ _ _ _ _ _ I' E Hx) as [E1 _]. lia.
 Qed.
+
+(** ** Nobody but the initiators is debited, at any depth (C04, C19)
+
+    A reaction none of whose calls — at any level of nesting — is initiated by [a] leaves every
+    balance and every NFT of [a] at least as it was. *)
+Inductive reaction_not_by (a : addr) : (world -> world) -> Prop :=
+| n_id : reaction_not_by a (fun w => w)
+| n_seq k1 k2 : reaction_not_by a k1 -> reaction_not_by a k2 -> reaction_not_by a (fun w => k2 (k1 w))
+| n_call o k : op_initiator o <> Some a -> reaction_not_by a k -> reaction_not_by a (fun w => fst (gstep k w o)).
+
+Definition spares (a : addr) (k : world -> world) : Prop :=
+  forall w, a <> self_addr w -> nondecr w (k w) a /\ self_addr (k w) = self_addr w.
+
+Lemma gdispatch_spares a k (Hk : spares a k) ms : forall w i fail armed w',
+  gdispatch k w i fail armed ms = Ok w' -> a <> self_addr w -> nondecr w w' a /\ self_addr w' = self_addr w.
+Proof.
+  induction ms as [|m r IH]; intros w i fail armed w' H Ha; [simpl in H; inv H; split; [apply nondecr_refl | reflexivity]|].
+  cbn [gdispatch] in H. step H; [discriminate|]. step H. rename x into w1.
+  pose proof (dispatch1_static _ _ _ Hb) as (_ & _ & _ & _ & _ & _ & _ & Hs & _).
+  assert (N1 : nondecr w w1 a) by (eapply dispatch1_others; eassumption).
+  assert (Ha1 : a <> self_addr w1) by congruence.
+  destruct (armed && to_hostile w m).
+  - destruct (Hk w1 Ha1) as [N2 S2]. destruct (IH _ _ _ _ _ H) as [N3 S3]; [congruence|].
+    split; [|congruence]. eapply nondecr_trans; [exact N1|]. eapply nondecr_trans; [exact N2 | exact N3].
+  - destruct (IH _ _ _ _ _ H Ha1) as [N3 S3]. split; [|congruence]. eapply nondecr_trans; [exact N1 | exact N3].
+Qed.
+
+Lemma gstep_spares a k o : op_initiator o <> Some a -> spares a k -> spares a (fun w => fst (gstep k w o)).
+Proof.
+  intros Hi Hk w Ha. unfold gstep. destruct (gtry_step k w o) as [[w' out]|] eqn:H; cbn [fst]; [|split; [apply nondecr_refl | reflexivity]].
+  destruct (enter w o) as [r|] eqn:En.
+  - rewrite (gtry_step_enter _ _ _ _ En) in H. destruct r as [[[[[w1 sender] fs] m] fail]|]; [|discriminate].
+    destruct (enter_others _ _ _ _ _ _ _ _ En Hi) as [A Es].
+    unfold grun_market in H. step H. destruct x as [s' out']. step H. inv H.
+    assert (E : nondecr w1 (set_market w1 s') a) by (unfold nondecr; simpl; splits; intros; try lia; assumption).
+    destruct (gdispatch_spares a k Hk _ _ _ _ _ _ Hb0) as [N3 S3]; [simpl; congruence|].
+    simpl in S3. split; [|congruence].
+    eapply nondecr_trans; [exact A|]. eapply nondecr_trans; [exact E | exact N3].
+  - rewrite (gtry_step_other _ _ _ En) in H.
+    pose proof (step_others_nondecreasing w o a Hi Ha) as G. destruct (step_static w o) as (_ & Hs & _).
+    rewrite step_fst, H in G, Hs. split; assumption.
+Qed.
+
+Theorem reaction_spares a k : reaction_not_by a k -> spares a k.
+Proof.
+  induction 1 as [| k1 k2 _ IH1 _ IH2 | o k Hi _ IH].
+  - intros w Ha. split; [apply nondecr_refl | reflexivity].
+  - intros w Ha. destruct (IH1 w Ha) as [N1 S1]. destruct (IH2 (k1 w)) as [N2 S2]; [congruence|].
+    split; [eapply nondecr_trans; eassumption | congruence].
+  - apply gstep_spares; assumption.
+Qed.
+
+(** A transaction with any such reaction debits nobody but the initiators of its calls. *)
+Theorem gstep_others_nondecreasing w o k a :
+  op_initiator o <> Some a -> reaction_not_by a k -> a <> self_addr w -> nondecr w (fst (gstep k w o)) a.
+Proof.
+  intros Hi Hk Ha. apply (gstep_spares a k o Hi (reaction_spares a k Hk) w Ha).
+Qed.
